@@ -548,6 +548,7 @@ func NewHB(ctl Ctl, begin, dir, tag string, hb, accHB int) (*Sys, error) {
 
 // Close stops both engines; all their goroutines end.
 func (s *Sys) Close() {
+	s.Net.Allow(false)
 	s.Net.Cut()
 	s.ctl.Barrier()
 	s.drainLogonTimers()
@@ -685,6 +686,8 @@ func (s *Sys) CutWritesFirst() {
 
 // Restart discards one engine and recreates it on its persistent store.
 func (s *Sys) Restart(onI bool) error {
+	// no new connection while the engine is being replaced (the initiator redials on its own as soon as it may)
+	s.Net.Allow(false)
 	if s.Net.Up() {
 		s.Cut()
 	}
